@@ -16,6 +16,11 @@ ASSUMPTIONS = [
     "1.x is database_inconsistency (modelled as the code does; neither is a misidentification)",
     "reading the Information row and the PRAGMA table_info marker is SQLite's job (correspondence only)",
 ]
+MANIFEST = dict(
+    text='Theorem C13_exact: the decision tree regenerated from schema.cpp on every run equals the public version table on all integer triples and both marker values (unbounded Int), with C13_no_misidentification, C13_unsupported_iff, C13_reload, C13_layout, C13_create_or_load; tied to the code by the clang-AST translator and by loading real directories with planted version triples (both layouts, four presence combinations) against both the generated tree and the Spec table.',
+    note="Trusted: Lean kernel; translator tools/tr_detect.py; SQLite's reading of the Information row and of PRAGMA table_info (correspondence only). (3,0,0) is in the Spec table (see DESIGN.md C13).",
+    technique='Lean 4 theorem over a model regenerated from source (translator) + differential loading of planted directories',
+    ref='6/C13')
 TRUSTED_EXTRA = ["tools/tr_detect.py (clang-14 JSON AST -> Lean translator for detect_schema and the schema_version constants)"]
 
 
